@@ -2741,6 +2741,14 @@ impl<T: Storage> Raft<T> {
         let cs = self.prs.conf().to_conf_state();
         let is_voter = self.prs.conf().voters.contains(self.id);
         self.promotable = is_voter;
+        // A pending leadership transfer ends when its target leaves the voters, also when
+        // this node leaves them at the same time.
+        if self
+            .lead_transferee
+            .is_some_and(|e| !self.prs.conf().voters.contains(e))
+        {
+            self.abort_leader_transfer();
+        }
         if !is_voter && self.state == StateRole::Leader {
             // This node is leader and was removed or demoted. We prevent demotions
             // at the time writing but hypothetically we handle them the same way as
@@ -2796,12 +2804,6 @@ impl<T: Storage> Raft<T> {
             }
         }
 
-        if self
-            .lead_transferee
-            .is_some_and(|e| !self.prs.conf().voters.contains(e))
-        {
-            self.abort_leader_transfer();
-        }
         cs
     }
 
